@@ -1,12 +1,12 @@
 \* generated by gensync.py - edit there
 SPECIFICATION Spec
 CONSTANTS
- Clients = {1, 2, 3}
- Creators = {1}
- Subscribers = {2}
+ Clients = {1, 2}
+ Creators = {}
+ Subscribers = {1, 2}
  OtherType = {}
  MaxOps = 1
- MaxSends = 5
+ MaxSends = 3
  MaxServes = 1
  MaxApplies = 1
  Faults = FALSE
